@@ -648,6 +648,27 @@ def null_provenance_cases():
     return cases
 
 
+def computed_number_cases():
+    """positions and range bounds that are COMPUTED: a result of arithmetic is held reduced, so a multiple of ten has a positive exponent (2*5 is 1E+1) - it is
+    the integer 10 all the same, as a list index (either sign) and as a bound of an iteration range (found on the unchanged tree by an outsider: l[2*5] was null,
+    fixed in /repo dd83860; seeded change C01_l: the same test of the representation in front of the iteration ranges)"""
+    n = lambda z: ('num', z)
+    L = ('list', tuple(n(100 + i) for i in range(1, 13)))
+    tens = [('bin', 'Mul', n(2), n(5)), ('bin', 'Add', n(5), n(5)), ('bin', 'Sub', n(20), n(10)), ('bin', 'Div', n(30), n(3)), ('bin', 'Sub', n(0), n(10)), ('bin', 'Mul', n(-2), n(5)),
+            ('bin', 'Sub', n(15), n(5)), ('bin', 'Mul', n(1), n(10))]
+    cases = []
+    for t in tens:
+        cases.append(((), ('filter', L, t)))
+        cases.append(((), ('filter', ('list', (n(1), n(2), n(3))), t)))
+        cases.append((((101, t),), ('filter', L, ('name', 101))))
+    ten = tens[0]
+    for lo, hi in ((n(8), ten), (tens[3], n(12)), (tens[2], n(8)), (tens[1], tens[0]), (n(12), tens[6])):
+        cases.append(((), ('for', ((101, ('drange', lo, hi)),), ('name', 101))))
+        cases.append(((), ('for', ((101, ('drange', n(1), n(2))), (102, ('drange', lo, hi))), ('bin', 'Mul', ('name', 101), ('name', 102)))))
+        cases.append((((103, lo), (104, hi)), ('for', ((101, ('drange', ('name', 103), ('name', 104))),), ('bin', 'Add', ('name', 101), n(1)))))
+    return cases
+
+
 def shadow_cases(gen):
     """implicit names (`item` in filters, `partial` in for) against every way of binding the same name outside"""
     r = gen.rng
